@@ -372,7 +372,7 @@ pub fn arb_case(p: TreeParams, maxops: usize) -> BoxedStrategy<Case> {
 }
 
 fn run(ctx: &mut Ctx) {
-    let cases = ctx.share(ctx.tier.pick(30_000, 800_000));
+    let cases = ctx.share(ctx.tier.pick(200_000, 1_000_000));
     let p = ctx.tier.pick(TreeParams::small(), TreeParams::quick());
     let maxops = ctx.tier.pick(12, 40);
     run_strategy(ctx, "C07", "chains", cases, arb_case(p, maxops), check);
